@@ -27,6 +27,7 @@ EXPLANATION = (
     ' (R5) no class of the InverterError family is a subclass of an exception class that a handler of the protocol layer catches as a network error (OSError, CancelledError, TimeoutError); call-arity TypeErrors are exception sources; a failure kind that no longer reaches its counting handler in _read_from_socket is a violation.'
     ' Indexing text decoded from a response at a fixed position is an IndexError source unless a length test guards it.'
     " (R6) no method of the protocol classes calls a method / reads an attribute on self.<attr> right after a test found it unset, on any path including the exception handlers; an argument whose inferred type cannot match the parameter's annotation is a TypeError source."
+    ' (R7) read_device_info() uses an attribute that __init__ leaves None as text only after assigning it on the same path (model predicates summarised); (R8) definite assignment: no local is read before it is assigned on any path of the inverter / protocol classes.'
 )
 
 DOCUMENTED_EXPLICIT = ("ValueError", "NotImplementedError")
@@ -61,6 +62,10 @@ def check(ctx: Ctx, rep: Report):
     rep.rule("C09.R2", "no exception escapes an event-loop callback (InvalidStateError unless dominated by a not-done() test)", 10)
     rep.rule("C09.R4", "the request is published (self.command, self.response_future bound) before the transport write that can synchronously call error_received", 2)
     rep.rule("C09.R5", "no InverterError class is a subclass of an exception class the network-error handlers catch", 4)
+    rep.rule("C09.R8", "no public call can fail with NameError / UnboundLocalError: every local is assigned on the path before it is read", 1)
+    r8_unbound(ctx, rep)
+    rep.rule("C09.R7", "read_device_info() uses an attribute that __init__ leaves None (serial number, model name ...) as text only after assigning it on that path", 2)
+    r7_unset_text(ctx, rep)
     rep.rule("C09.R6", "no method of the protocol layer uses an attribute of self it has just found unset (AttributeError on None)", 1)
     r6_none(ctx, rep)
     rep.rule("C09.R3", "_read_from_socket resets the failure counter on success, increments it once before every RequestFailedException and passes it on; execute is reached only through it", 5)
@@ -176,6 +181,195 @@ def is_known_name(ctx: Ctx, fn, call: ast.Call) -> bool:
     except Exception:
         return True
     return not ct.funcs or all(is_known(g, ctx.prog) for g in ct.funcs)
+
+
+def _none_unsafe_attrs(fn, pname: str, optional) -> set:
+    """Attributes A of parameter *pname* that *fn* uses in a way that raises TypeError / AttributeError on None:
+    ``x in p.A``, ``p.A[...]``, ``p.A.method()``, ``len(p.A)``, iteration."""
+    out = set()
+
+    def is_attr(e):
+        return isinstance(e, ast.Attribute) and isinstance(e.value, ast.Name) and e.value.id == pname and e.attr in optional
+    for n in ast.walk(fn.node if not fn.is_lambda else fn.node.body):
+        if isinstance(n, ast.Compare):
+            for op, c in zip(n.ops, n.comparators):
+                if isinstance(op, (ast.In, ast.NotIn)) and is_attr(c):
+                    out.add(c.attr)
+        elif isinstance(n, ast.Subscript) and is_attr(n.value):
+            out.add(n.value.attr)
+        elif isinstance(n, ast.Call) and isinstance(n.func, ast.Attribute) and is_attr(n.func.value):
+            out.add(n.func.value.attr)
+        elif isinstance(n, ast.Call) and isinstance(n.func, ast.Name) and n.func.id in ("len", "iter", "sorted", "list", "tuple") and n.args and is_attr(n.args[0]):
+            out.add(n.args[0].attr)
+        elif isinstance(n, (ast.For, ast.comprehension)) and is_attr(n.iter):
+            out.add(n.iter.attr)
+    # a guard 'if p.A' / 'p.A is not None' / 'p.A and ...' anywhere in the function is taken as covering its uses
+    for n in ast.walk(fn.node if not fn.is_lambda else fn.node.body):
+        tests = []
+        if isinstance(n, (ast.If, ast.IfExp, ast.While)):
+            tests.append(n.test)
+        if isinstance(n, ast.BoolOp):
+            tests.extend(n.values[:-1])
+        for t in tests:
+            for x in ast.walk(t):
+                if is_attr(x) and not any(isinstance(y, ast.Compare) and any(z is x for z in y.comparators) and any(isinstance(o, (ast.In, ast.NotIn)) for o in y.ops) for y in ast.walk(t)):
+                    out.discard(x.attr)
+    return out
+
+
+def r8_unbound(ctx: Ctx, rep: Report):
+    """Definite assignment along every path (exception handlers included) of the methods of the inverter and protocol
+    classes: a name that is local to the function (assigned somewhere in it) is read only after an assignment on the
+    same path; a name that is assigned nowhere must be a parameter, a module-level name or a builtin."""
+    import builtins as _b
+    from .proto import protocol_paths, proto_classes as _pcs
+    prog, res = ctx.prog, ctx.res
+    inv = prog.cls("Inverter")
+    classes = list(prog.all_subclasses(inv, include_self=True)) + [c for ci in list.__iter__(_pcs(ctx)) for c in prog.mro(ci) if isinstance(c, ClassInfo)] \
+        + [prog.cls("ProtocolCommand"), prog.cls("ProtocolResponse")]
+    seen, nfn, nbad = set(), 0, 0
+    for ci in classes:
+        for m in ci.methods.values():
+            if m.qualname in seen or m.is_lambda:
+                continue
+            seen.add(m.qualname)
+            nfn += 1
+            stored = {n.id for n in ast.walk(m.node) if isinstance(n, ast.Name) and isinstance(n.ctx, (ast.Store, ast.Del))}
+            stored |= {h.name for h in ast.walk(m.node) if isinstance(h, ast.ExceptHandler) and h.name}
+            stored |= {a.asname or a.name.split(".")[0] for n in ast.walk(m.node) if isinstance(n, (ast.Import, ast.ImportFrom)) for a in n.names}
+            comp_vars = {x.id for n in ast.walk(m.node) if isinstance(n, ast.comprehension) for x in ast.walk(n.target) if isinstance(x, ast.Name)}
+            lam_params = {a.arg for n in ast.walk(m.node) if isinstance(n, ast.Lambda) for a in n.args.args + n.args.kwonlyargs}
+            nested = {n.name for n in ast.walk(m.node) if isinstance(n, (ast.FunctionDef, ast.AsyncFunctionDef, ast.ClassDef)) and n is not m.node}
+            a_ = m.node.args
+            params = {x.arg for x in a_.posonlyargs + a_.args + a_.kwonlyargs} | ({a_.vararg.arg} if a_.vararg else set()) | ({a_.kwarg.arg} if a_.kwarg else set())
+            globs = {g for n in ast.walk(m.node) if isinstance(n, (ast.Global, ast.Nonlocal)) for g in n.names}
+            # names assigned nowhere in the function
+            flagged = set()
+            for n in ast.walk(m.node):
+                if isinstance(n, ast.Name) and isinstance(n.ctx, ast.Load) and n.id not in stored | params | comp_vars | lam_params | nested | globs \
+                        and prog.lookup(m.module, n.id) is None and not hasattr(_b, n.id) and n.id not in flagged:
+                    flagged.add(n.id)
+                    nbad += 1
+                    rep.violation("C09.R8", "unbound:%s:%s" % (m.short, n.id), m.loc(n), "%s reads the name '%s', which is bound nowhere (no local, parameter, module-level name or builtin): NameError" % (m.short, n.id))
+            with_vars = {x.id for n in ast.walk(m.node) if isinstance(n, (ast.With, ast.AsyncWith)) for it in n.items if it.optional_vars is not None
+                         for x in ast.walk(it.optional_vars) if isinstance(x, ast.Name)}
+            import_names = {a.asname or a.name.split(".")[0] for n in ast.walk(m.node) if isinstance(n, (ast.Import, ast.ImportFrom)) for a in n.names}
+            locals_ = (stored - globs) - comp_vars
+            if not locals_:
+                continue
+            try:
+                paths = protocol_paths(ctx, m)
+            except AnalysisError:
+                continue
+            done = set()
+            for p in paths:
+                assigned = set(params) | nested | with_vars | import_names
+                for i, ev in enumerate(p.events):
+                    if p.fn_at(i, m) is not m:
+                        continue
+                    node = ev.node
+                    if ev.kind in ("test", "call", "await", "raise") and node is not None:
+                        for x in ast.walk(node):
+                            if isinstance(x, ast.NamedExpr) and isinstance(x.target, ast.Name):
+                                assigned.add(x.target.id)
+                        for x in ast.walk(node):
+                            if isinstance(x, ast.Name) and isinstance(x.ctx, ast.Load) and x.id in locals_ and x.id not in assigned and (m.qualname, x.id) not in done:
+                                done.add((m.qualname, x.id))
+                                nbad += 1
+                                rep.violation("C09.R8", "unbound:%s:%s" % (m.short, x.id), m.loc(x),
+                                              "%s reads the local '%s' on a path on which nothing has been assigned to it: UnboundLocalError [path %s]" % (m.short, x.id, p.describe(6)))
+                    if ev.kind == "stmt" and node is not None:
+                        val = getattr(node, "value", None)
+                        for x in ast.walk(val) if val is not None else []:
+                            if isinstance(x, ast.Name) and isinstance(x.ctx, ast.Load) and x.id in locals_ and x.id not in assigned and (m.qualname, x.id) not in done \
+                                    and not isinstance(node, ast.AugAssign):
+                                done.add((m.qualname, x.id))
+                                nbad += 1
+                                rep.violation("C09.R8", "unbound:%s:%s" % (m.short, x.id), m.loc(x),
+                                              "%s reads the local '%s' on a path on which nothing has been assigned to it: UnboundLocalError [path %s]" % (m.short, x.id, p.describe(6)))
+                        for x in ast.walk(node):
+                            if isinstance(x, ast.Name) and isinstance(x.ctx, ast.Store):
+                                assigned.add(x.id)
+                    if ev.kind == "iter" and node is not None and hasattr(node, "target"):
+                        for x in ast.walk(node.target):
+                            if isinstance(x, ast.Name):
+                                assigned.add(x.id)
+                    if ev.kind == "catch" and node is not None and getattr(node, "name", None):
+                        assigned.add(node.name)
+                    if ev.kind in ("return",) and node is not None and getattr(node, "value", None) is not None:
+                        for x in ast.walk(node.value):
+                            if isinstance(x, ast.Name) and isinstance(x.ctx, ast.Load) and x.id in locals_ and x.id not in assigned and (m.qualname, x.id) not in done:
+                                done.add((m.qualname, x.id))
+                                nbad += 1
+                                rep.violation("C09.R8", "unbound:%s:%s" % (m.short, x.id), m.loc(x),
+                                              "%s returns the local '%s' on a path on which nothing has been assigned to it: UnboundLocalError [path %s]" % (m.short, x.id, p.describe(6)))
+    rep.ok("C09.R8", "unbound:scan", "goodwe/", "%d methods of the inverter / protocol classes followed, %d reads of an unassigned name" % (nfn, nbad))
+
+
+def r7_unset_text(ctx: Ctx, rep: Report):
+    """read_device_info() is the first call on a fresh object: the attributes __init__ sets to None are None until the
+    method assigns them, and some assignments sit in handlers that may leave them unset (the model name when the
+    registers are not ASCII and the fallback read is refused).  On every path - network exceptions and their handlers
+    included - an attribute is used as text (x in a, a[...], a.method(), also inside the model predicates it is handed
+    to) only after an assignment of something other than None on that path."""
+    from ..astutil import self_store
+    from .proto import protocol_paths
+    prog, res = ctx.prog, ctx.res
+    inv = prog.cls("Inverter")
+    init = inv.methods.get("__init__")
+    optional = {a for st in ast.walk(init.node) if isinstance(st, ast.stmt) for a, v, _ in self_store(st) if isinstance(v, ast.Constant) and v.value is None} if init else set()
+    if len(optional) < 2:
+        raise AnalysisError("Inverter.__init__ leaves fewer than two attributes None (%s)" % sorted(optional))
+    summaries = {}
+    for f in res.all_funcs():
+        if f.is_lambda or not f.params:
+            continue
+        u = _none_unsafe_attrs(f, f.params[0], optional)
+        if u:
+            summaries[f.qualname] = u
+    nfn = 0
+    for ci in prog.all_subclasses(inv, include_self=False):
+        m = ci.methods.get("read_device_info")
+        if m is None:
+            continue
+        nfn += 1
+        bad = None
+        for p in protocol_paths(ctx, m):
+            assigned = set()
+            for i, ev in enumerate(p.events):
+                if ev.kind == "stmt":
+                    for a, v, _ in self_store(ev.node):
+                        if v is not None and not (isinstance(v, ast.Constant) and v.value is None):
+                            assigned.add(a)
+                        elif a in assigned and isinstance(v, ast.Constant) and v.value is None:
+                            assigned.discard(a)
+                used = set()
+                if ev.kind == "call" and isinstance(ev.node, ast.Call):
+                    ct = res.resolve_call(ev.node, p.fn_at(i, m))
+                    for g in ct.funcs:
+                        u = summaries.get(g.qualname)
+                        if not u:
+                            continue
+                        first = ev.node.args[0] if ev.node.args else None
+                        if (isinstance(first, ast.Name) and first.id == "self") or (ct.bound_self and isinstance(ev.node.func, ast.Attribute) and norm(ev.node.func.value) == "self"):
+                            used |= {(a, g.short) for a in u}
+                if ev.kind in ("test", "call", "stmt") and ev.node is not None and p.fn_at(i, m) is m:
+                    own = summaries.get(m.qualname, set())
+                    for x in ast.walk(ev.node) if ev.kind != "stmt" else []:
+                        if isinstance(x, ast.Attribute) and isinstance(x.value, ast.Name) and x.value.id == "self" and x.attr in own:
+                            pass      # direct uses in the method itself are judged through its summary's guard logic only
+                for a, where in used:
+                    if a not in assigned and bad is None:
+                        bad = (p, a, where, ev.node)
+        if bad is None:
+            rep.ok("C09.R7", "unset-text:%s" % m.short, m.loc(), "%s: every text use of %s follows an assignment on the same path" % (m.short, sorted(optional & {a for u in summaries.values() for a in u})))
+        else:
+            p, a, where, node = bad
+            rep.violation("C09.R7", "unset-text:%s:%s" % (m.short, a), m.loc(node),
+                          "%s calls %s, which uses self.%s as text, on a path on which self.%s is still None (left unset by __init__, not assigned on this path): TypeError, an internal exception out of read_device_info() / connect() [path %s]" % (
+                              m.short, where, a, a, p.describe(8)))
+    if nfn < 2:
+        raise AnalysisError("fewer than two read_device_info implementations found")
 
 
 def r6_none(ctx: Ctx, rep: Report):
